@@ -129,6 +129,14 @@ func computeFieldToStruct(info *types.Info) map[*types.Var]*types.Struct {
 	for _, tv := range info.Types {
 		recordFieldToStruct(tv.Type, done, fieldToStruct)
 	}
+	// A generic function used by this package only shows up instantiated in info.Types.
+	// Any anonymous struct in its signature owns the origin fields that selections
+	// on the instantiated result refer to, so visit the origin signature as well.
+	for _, obj := range info.Uses {
+		if fn, ok := obj.(*types.Func); ok {
+			recordFieldToStruct(fn.Origin().Type(), done, fieldToStruct)
+		}
+	}
 	return fieldToStruct
 }
 
@@ -168,6 +176,13 @@ func recordFieldToStruct(typ types.Type, done map[*types.Named]bool, fieldToStru
 		}
 		done[typ] = true
 		recordFieldToStruct(typ.Origin().Underlying(), done, fieldToStruct)
+	case *types.Signature:
+		recordFieldToStruct(typ.Params(), done, fieldToStruct)
+		recordFieldToStruct(typ.Results(), done, fieldToStruct)
+	case *types.Tuple:
+		for v := range typ.Variables() {
+			recordFieldToStruct(v.Type(), done, fieldToStruct)
+		}
 	case *types.Struct:
 		for field := range typ.Fields() {
 			if field != field.Origin() {
